@@ -235,7 +235,9 @@ def classify(ur):
     if vr.get('success'):
         return out
     rustc_errs = [d for d in errs if d.get('code')]
-    if vr.get('encountered-vir-error') or 'verified' not in vr or rustc_errs:
+    # no verification error counted although the run failed: the front end (parser, type checker) stopped it
+    no_verif_err = (not vr.get('success')) and vr.get('errors', 0) == 0
+    if vr.get('encountered-vir-error') or 'verified' not in vr or rustc_errs or no_verif_err:
         out['status'] = 'frontend'
         out['notes'] += [d.get('message', '') + ' @' + ','.join('%d' % s['line_start'] for s in d.get('spans', [])[:1]) for d in errs[:6]]
         return out
